@@ -36,9 +36,13 @@ pub fn gen(seed: u64, n: usize, out: &mut String) {
             // partitions, 2-byte block-size field), one full block or a full block and a tail, 1-2 channels
             let mut r2 = Rng::new(seed ^ 0xB16B ^ ((i / 64) as u64) << 24);
             let bs = *r2.pick(&[2304usize, 4096, 4608, 8192, 16384, 32767, 4097, 12288]);
-            let ch = 1 + r2.below(2) as usize; let bps = *r2.pick(&[8usize, 16, 24]);
+            let ch = if bs > 8192 { 1 } else { 1 + r2.below(2) as usize }; let bps = *r2.pick(&[8usize, 16, 24]);
             let n = if r2.chance(1, 2) { bs } else { bs + 1 + r2.below(200) as usize };
-            let s = sig::gen_signal(&mut r2, ch, bps, n);
+            // scaled down to |x| <= 7: the frames stay small (the model's byte sink is quadratic in the frame length)
+            let s0 = sig::gen_signal(&mut r2, ch, bps, n);
+            let mx = s0.iter().map(|x| x.unsigned_abs()).max().unwrap_or(0);
+            let sh = (32 - mx.leading_zeros()).saturating_sub(3);
+            let s: Vec<i32> = s0.iter().map(|x| x >> sh).collect();
             c.bs = bs;
             writeln!(out, "ENC e{} {} {} {} {} {} {}", i, c.encode(), *r2.pick(&[44100usize, 96000, 12345]), ch, bps, bs, sig::fmt_samples(&s)).unwrap();
             continue;
@@ -206,6 +210,21 @@ pub fn gen_dlv(seed: u64, n: usize, out: &mut String) {
             let s: Vec<i32> = (0..frames * 32 + tail).map(|_| r2.range(-9, 9) as i32).collect();
             let th = if i % 200 == 7 { "s" } else { "m2" };
             writeln!(out, "DLV d{} i1{} {} {} {} {} {} {}", i, th, c.encode(), 44100, 1, 8, 32, sig::fmt_samples(&s)).unwrap();
+            continue;
+        }
+        if i % 200 == 57 || i % 200 == 58 {
+            // a WIDE input: 3/5/6/7 channels at 24 bits with ONE block (plus a short tail) that holds more than 16384 interleaved
+            // samples and more than 64 KiB of sample bytes, no length hint, integer delivery, no predictors; once single- and once
+            // multi-threaded on the same input
+            let mut r2 = Rng::new(seed ^ 0x71DE ^ ((i / 200) as u64) << 20);
+            let (ch, bs) = [(7usize, 3200usize), (5, 4400), (3, 7300), (6, 3700)][(i / 200 + seed as usize) % 4];
+            let bps = 24;
+            let mut c = sig::Cfg::default(); c.bs = bs; c.ul = false; c.fo = 1;
+            let n = bs + 1 + r2.below(40) as usize;
+            // quiet noise: the frames stay small (the model's byte sink is quadratic in the frame length)
+            let s: Vec<i32> = (0..n * ch).map(|_| r2.range(-3, 3) as i32).collect();
+            let th = if i % 200 == 57 { "s" } else { "m2" };
+            writeln!(out, "DLV d{} i0{} {} {} {} {} {} {}", i, th, c.encode(), 48000, ch, bps, bs, sig::fmt_samples(&s)).unwrap();
             continue;
         }
         let mut c = sig::gen_valid_cfg(&mut r);
